@@ -167,10 +167,64 @@ def throw_machines():
     out.append(("throw_positions", md, opss))
     return out
 
+def throw_nested_machines():
+    """a throw at every behaviour position of a step that enters a submachine (front-end on_entry of the submachine,
+    entries of its initial states - two regions - and of the sub-submachine in region 1), then events for the
+    submachine: it must react to them at once (not wedged), whatever active-state-switch policy is configured"""
+    leaf = machine([state(), state()], [0], [row(30, 0, 5, 1, act="call"), row(31, 1, 5, 0)])
+    sub = machine([state(), state(), state(sub=leaf), state()], [0, 2],
+                  [row(20, 0, 5, 1, act="call"), row(21, 1, 5, 0, act="call"), row(22, 2, 7, 3), row(23, 3, 7, 2)])
+    root = machine([state(), state(sub=sub)], [0], [row(1, 0, 4, 1, act="call"), row(2, 1, 6, 0, act="call")])
+    md = mdef(root, 4)
+    opss = []
+    for k in range(0, 9):
+        opss.append([("start", [], []), ("process", 4, 1, [], [(k, ("throw",))]), ("process", 5, 2, [], []), ("process", 7, 3, [], []),
+                     ("process", 5, 4, [], []), ("process", 6, 5, [], []), ("process", 4, 6, [], []), ("process", 5, 7, [], []),
+                     ("process", 7, 8, [], [])])
+    # the same with a throw during start()
+    for k in range(0, 3):
+        opss.append([("start", [], [(k, ("throw",))]), ("process", 4, 1, [], []), ("process", 5, 2, [], []), ("process", 6, 3, [], []),
+                     ("process", 4, 4, [], [])])
+    return [("throw_nested_entry", md, opss)]
+
+def copy_history_machines():
+    """a submachine with each history policy is left from a non-initial substate; the machine is then copied / assigned /
+    moved / saved+loaded while that submachine is inactive, and original and duplicate re-enter it (through the history
+    event and through another event) and continue"""
+    out = []
+    for hname, hist in (("none", "none"), ("always", "always"), ("shallow", ["shallow", 4])):
+        sub = machine([state(), state(), state()], [0], [row(20, 0, 5, 1, act="call"), row(21, 1, 5, 2, act="call"), row(22, 2, 5, 0, act="call")], hist=hist)
+        inner2 = machine([state(), state()], [0], [row(30, 0, 5, 1), row(31, 1, 5, 0)], hist=hist)
+        root = machine([state(), state(sub=sub), state(sub=inner2)], [0],
+                       [row(1, 0, 4, 1, act="call"), row(2, 1, 6, 0, act="call"), row(3, 0, 7, 1, act="call"),
+                        row(4, 0, 8, 2), row(5, 2, 6, 0)])
+        md = mdef(root, 5)
+        def P(k, e, pay):
+            return ("on", k, ("process", e, pay, [], []))
+        for mode in ("copy", "assign", "move", "saveload"):
+            opss = []
+            for nsteps in (1, 2):
+                for reenter in (4, 7):
+                    ops = [("start", [], []), P(0, 4, 1)] + [P(0, 5, 2 + i) for i in range(nsteps)] + [P(0, 6, 5)]
+                    # a second submachine visited and left as well
+                    ops += [P(0, 8, 6), P(0, 5, 7), P(0, 6, 8)]
+                    if mode == "assign":
+                        ops += [("copy", 1, 0), P(1, 4, 9), P(1, 5, 10), ("assign", 1, 0)]
+                    else:
+                        ops += [(mode, 1, 0)]
+                    src = 0 if mode != "move" else None
+                    for k in ([0, 1] if mode != "move" else [1]):
+                        ops += [P(k, reenter, 20 + k), P(k, 5, 22 + k), P(k, 6, 24 + k), P(k, 8, 26 + k), P(k, 5, 28 + k)]
+                    if mode == "move":
+                        ops += [("assign", 0, 1), P(0, reenter, 30), P(0, 5, 31)]
+                    opss.append(ops)
+            out.append(("%shist_%s" % ({"copy": "copy", "assign": "assign", "move": "move", "saveload": "save"}[mode], hname), md, opss))
+    return out
+
 def main():
     os.makedirs(os.path.join(VERIF, "corpus"), exist_ok=True)
     n = 0
-    for name, md, opss in fwd_machines() + ortho_machines() + block_machines() + pseudo_machines() + fork_machines() + throw_machines():
+    for name, md, opss in fwd_machines() + ortho_machines() + block_machines() + pseudo_machines() + fork_machines() + throw_machines() + throw_nested_machines() + copy_history_machines():
         save(name, md, opss)
         n += 1
     print("wrote %d corpus machines" % n)
